@@ -281,6 +281,13 @@ impl Dumper {
                                     None => return json!({"undecoded": "tag"}),
                                 }
                             }
+                            TagEncoding::Niche { untagged_variant, .. }
+                                if alloc.provenance.ptrs.iter().any(|(o, _)| *o == off + tag_off) =>
+                            {
+                                // the niche field holds a real pointer (its bytes are only an offset
+                                // into the pointee allocation): never one of the niche values
+                                untagged_variant.to_index()
+                            }
                             TagEncoding::Niche { untagged_variant, niche_variants, niche_start } => {
                                 let mask = if tsize >= 16 { u128::MAX } else { (1u128 << (tsize * 8)) - 1 };
                                 let rel = tagv.wrapping_sub(*niche_start) & mask;
